@@ -155,18 +155,38 @@ func Aggregate(files []*CountFile) (out map[Build]*ProgCounts, overflow bool) {
 // valid UTF-8 sequence is replaced by U+FFFD (names that become equal are summed). Approval is decided on the raw
 // names; only the comparison with a report that was written as JSON uses the rendered ones.
 func AsRendered(agg map[Build]*ProgCounts) map[Build]*ProgCounts {
-	out := map[Build]*ProgCounts{}
+	out, _ := AsRenderedOf(agg, nil)
+	return out
+}
+
+// AsRenderedOf is AsRendered; names of a build that two different raw names are rendered to (the JSON object then
+// holds the key twice, and a reader keeps one of the values) are left out of the result and, if other is given,
+// removed from the same build there as well. It reports how many names were left out.
+func AsRenderedOf(agg, other map[Build]*ProgCounts) (out map[Build]*ProgCounts, collided int) {
+	out = map[Build]*ProgCounts{}
 	for b, p := range agg {
 		q := &ProgCounts{Build: b, Counters: map[string]int64{}, Stacks: map[string]int64{}}
-		for k, v := range p.Counters {
-			q.Counters[renderedName(k)] += v
-		}
-		for k, v := range p.Stacks {
-			q.Stacks[renderedName(k)] += v
+		for _, kind := range []struct{ from, to map[string]int64 }{{p.Counters, q.Counters}, {p.Stacks, q.Stacks}} {
+			raws := map[string]int{}
+			for k, v := range kind.from {
+				r := renderedName(k)
+				kind.to[r] += v
+				raws[r]++
+			}
+			for r, n := range raws {
+				if n > 1 {
+					delete(kind.to, r)
+					collided++
+					if o := other[b]; o != nil {
+						delete(o.Counters, r)
+						delete(o.Stacks, r)
+					}
+				}
+			}
 		}
 		out[b] = q
 	}
-	return out
+	return out, collided
 }
 
 func renderedName(s string) string {
